@@ -249,8 +249,11 @@ pub fn execute(t: &Trace, with_child: bool, passthrough_child: bool) -> C09Out {
             }
         }
     }
+    // (the key is drawn whether or not the child runs, so that every other build sees the same keys in
+    // the search, in the minimiser and in a replay)
+    let child_key = kr.next();
     if with_child {
-        let key = if passthrough_child { None } else { Some(kr.next()) };
+        let key = if passthrough_child { None } else { Some(child_key) };
         out.child_builds += 1;
         match child_bytes_digest(t, key) {
             Some((d, l)) => {
